@@ -25,8 +25,6 @@ Pomerol::Operator lin_op(const std::vector<double>& a) {
 std::vector<RefTerm> lin_ref(const std::vector<double>& a) { std::vector<RefTerm> r; for (size_t i = 0; i < a.size(); ++i) if (a[i] != 0) { auto t = rn((int)i, a[i]); r.push_back(t[0]); } return r; }
 std::string vecstr(const std::vector<double>& a) { std::string s = "["; for (size_t i = 0; i < a.size(); ++i) { if (i) s += ","; s += fmt(a[i]); } return s + "]"; }
 
-// order of "hostility": the case's class is the worst class among the ACCEPTED candidates
-int cls_rank(const std::string& c) { if (c == "linear-int") return 1; if (c == "linear-decimal") return 2; if (c == "nonlinear") return 3; return 0; }
 }
 
 static void symm_run(Ctx& c) {
@@ -43,7 +41,7 @@ static void symm_run(Ctx& c) {
     c.features.set("N", N).set("balanced_spins", m.balanced_spins());
 
     // ---- candidates for the custom mode
-    std::vector<Cand> cands; std::vector<Pomerol::Operator> accepted_ops; std::string caseclass = pmode == PM_DEFAULT ? "default" : (pmode == PM_IGNORE ? "ignored" : "custom-none");
+    std::vector<Cand> cands; std::vector<Pomerol::Operator> accepted_ops; std::set<std::string> accepted_classes; std::string caseclass = pmode == PM_DEFAULT ? "default" : (pmode == PM_IGNORE ? "ignored" : "custom-none");
     J cj = J::arr();
     if (pmode == PM_CUSTOM) {
         int nc = (int)r.range(1, 3);
@@ -103,7 +101,12 @@ static void symm_run(Ctx& c) {
         // only candidates that are legitimately conserved and diagonal go into the partition that is monitored below, so that an
         // acceptance defect (reported above) does not surface a second time as a partition defect
         if (cd_.cls == "hamiltonian" && diag) cd_.cls = "nonlinear";   // a diagonal H (atomic limit) is a legitimate, generally non-linear, diagonal integral of motion
-        if (acc && !threw && conserved_ && diag) { accepted_ops.push_back(cd_.op); if (caseclass == "custom-none" || cls_rank(cd_.cls) > cls_rank(caseclass)) caseclass = cd_.cls; }
+        if (acc && !threw && conserved_ && diag) { accepted_ops.push_back(cd_.op); accepted_classes.insert(cd_.cls); }
+    }
+    // the case's class names every hostile kind among the accepted candidates (a mixed case cannot be attributed to one of them)
+    if (pmode == PM_CUSTOM && !accepted_classes.empty()) {
+        std::string cc; for (const char* k : {"linear-decimal", "nonlinear"}) if (accepted_classes.count(k)) cc += (cc.empty() ? "" : "+") + std::string(k);
+        caseclass = cc.empty() ? "linear-int" : cc;
     }
     c.count("candidates", (long)cands.size()); c.count("must_reject", n_must_reject); c.count("rejected_valid", n_rejected_valid); c.count("accepted", (long)accepted_ops.size());
     c.features.set("mode", pm_name(pmode)).set("class", caseclass).set("candidates", cj);
